@@ -37,7 +37,7 @@ def sign_cmp(op, a, b):
     return None
 
 
-def decide(c, sub=None, atoms=None, oracle=None):
+def decide(c, sub=None, atoms=None, oracle=None, conds=None):
     """truth of a folded condition under the substitution `sub` (sympy xreplace map) and boolean atoms {str: bool};
     oracle(leaf) may name the leaf as (predicate name, polarity): its truth is then atoms[name] == polarity"""
     sub = sub or {}
@@ -57,18 +57,18 @@ def decide(c, sub=None, atoms=None, oracle=None):
             return None
         op = c[0]
         if op == "ite" and len(c) == 4:
-            t = decide(c[1], sub, atoms, oracle)
+            t = decide(c[1], sub, atoms, oracle, conds)
             if t is None:
-                a_, b_ = decide(c[2], sub, atoms, oracle), decide(c[3], sub, atoms, oracle)
+                a_, b_ = decide(c[2], sub, atoms, oracle, conds), decide(c[3], sub, atoms, oracle, conds)
                 return a_ if a_ == b_ else None
-            return decide(c[2] if t else c[3], sub, atoms, oracle)
+            return decide(c[2] if t else c[3], sub, atoms, oracle, conds)
         if op in ("loop", "each", "switch"):
             return True
         if op == "!" and len(c) == 2:
-            r = decide(c[1], sub, atoms, oracle)
+            r = decide(c[1], sub, atoms, oracle, conds)
             return None if r is None else (not r)
         if op in ("&&", "||") and len(c) == 3:
-            l, r = decide(c[1], sub, atoms, oracle), decide(c[2], sub, atoms, oracle)
+            l, r = decide(c[1], sub, atoms, oracle, conds), decide(c[2], sub, atoms, oracle, conds)
             if op == "&&":
                 if l is False or r is False:
                     return False
@@ -77,9 +77,14 @@ def decide(c, sub=None, atoms=None, oracle=None):
                 return True
             return False if (l is False and r is False) else None
         if op in ("<", "<=", ">", ">=", "==", "!=") and len(c) == 3:
-            a, b = subst(c[1], sub), subst(c[2], sub)
+            a, b = c[1], c[2]
             if isinstance(a, (tuple, sp.Matrix)) or isinstance(b, (tuple, sp.Matrix)):
                 return None
+            if conds:
+                pick = lambda cs: decide(conds[cs], sub, atoms, oracle, conds) if cs in conds else None
+                a = resolve_ite(a, pick) if hasattr(a, "args") else a
+                b = resolve_ite(b, pick) if hasattr(b, "args") else b
+            a, b = subst(a, sub), subst(b, sub)
             return sign_cmp(op, a, b)
         return None
     s = str(c)
@@ -94,11 +99,11 @@ def decide(c, sub=None, atoms=None, oracle=None):
     return None
 
 
-def executes(event, sub=None, atoms=None, oracle=None):
+def executes(event, sub=None, atoms=None, oracle=None, conds=None):
     """does the event (store/call) happen?  all its guards hold and control has not left earlier on this path"""
     res = True
     for c, pol, _n in event["guards"]:
-        r = decide(c, sub, atoms, oracle)
+        r = decide(c, sub, atoms, oracle, conds)
         if r is None:
             res = None
             continue
@@ -107,7 +112,7 @@ def executes(event, sub=None, atoms=None, oracle=None):
     for gl in event.get("not", []):
         allt = True
         for c, pol, _n in gl:
-            r = decide(c, sub, atoms, oracle)
+            r = decide(c, sub, atoms, oracle, conds)
             if r is None:
                 allt = None if allt is not False else False
             elif r != pol:
@@ -211,7 +216,7 @@ def congruent(e, Z, N):
         if not getattr(x, "args", None):
             return x
         args = [unmod(a) for a in x.args]
-        if str(getattr(x, "func", "")) == "mod" and len(args) == 2 and args[1] == N:
+        if str(getattr(x, "func", "")) in ("mod", "imod") and len(args) == 2 and args[1] == N:
             cnt[0] += 1
             return args[0] - N * S("_q%d" % cnt[0])
         if str(getattr(x, "func", "")).startswith("SUM_") and len(args) == 1 and sp.expand(args[0]).subs(N, 0) == 0 and not ites(args[0]):
